@@ -217,7 +217,7 @@ struct communicator {
 
         if (!gc) {
             std::vector<int> c(size);
-            MPI_Gather(&lc, 1, MPI_INT, &c[0], size, MPI_INT, 0, comm);
+            MPI_Gather(&lc, 1, MPI_INT, &c[0], 1, MPI_INT, 0, comm);
             if (rank == 0) {
                 std::cerr << "Failed assumption: " << message << std::endl;
                 std::cerr << "Offending processes:";
